@@ -16,7 +16,9 @@ import (
 	"math/big"
 	"os"
 	"path/filepath"
+	"reflect"
 	"regexp"
+	"runtime/pprof"
 	"sort"
 	"strconv"
 	"strings"
@@ -44,12 +46,12 @@ type jn struct {
 	sem  interface{} // the value meant (leaves of generated documents): *big.Int, bool, []byte, string; read by the reference transcription in round3.go
 }
 
-func jnull() *jn            { return &jn{kind: 'n'} }
-func jbool(b bool) *jn      { return &jn{kind: 'b', b: b} }
-func jnum(t string) *jn     { return &jn{kind: '#', s: t} }
-func jstr(s string) *jn     { return &jn{kind: 's', s: s} }
-func jarr(l ...*jn) *jn     { return &jn{kind: 'a', arr: l} }
-func jobj() *jn             { return &jn{kind: 'o'} }
+func jnull() *jn        { return &jn{kind: 'n'} }
+func jbool(b bool) *jn  { return &jn{kind: 'b', b: b} }
+func jnum(t string) *jn { return &jn{kind: '#', s: t} }
+func jstr(s string) *jn { return &jn{kind: 's', s: s} }
+func jarr(l ...*jn) *jn { return &jn{kind: 'a', arr: l} }
+func jobj() *jn         { return &jn{kind: 'o'} }
 func (j *jn) set(k string, v *jn) *jn {
 	for i, kk := range j.keys {
 		if kk == k {
@@ -254,10 +256,19 @@ func genMemberType(r *cv.Rand, st *cv.Stats, names []string, self string) *mty {
 	}
 	// arrays nested to depth 3
 	d := []int{0, 0, 0, 1, 1, 2, 3}[r.Intn(7)]
+	prod := 1
 	for i := 0; i < d; i++ {
 		f := -1
 		if r.Intn(2) == 0 {
 			f = dimPool[r.Intn(len(dimPool))]
+			if f > 3 && prod*f > 33 {
+				f = 1 + r.Intn(2) // keep the number of elements of one member small (never taken with the default pool)
+			}
+			if f > 0 {
+				prod *= f
+			}
+		} else {
+			prod *= 3 // a dynamic dimension is given up to 3 elements
 		}
 		t = &mty{kind: "arr", elem: t, fixed: f}
 	}
@@ -495,8 +506,21 @@ func hexSpell(r *cv.Rand, b []byte) string {
 	}
 }
 
+// nodeLimit > 0 bounds the number of values generated for one message (bulk sections only; with 0,
+// the default, the generator's draws are exactly those of the earlier rounds)
+var nodeLimit, nodeCount = 0, 0
+
 // genValue returns the JSON for a value of type t; budget bounds the struct nesting
 func genValue(r *cv.Rand, st *cv.Stats, g *graph, t *mty, budget int) *jn {
+	nodeCount++
+	if nodeLimit > 0 && nodeCount > nodeLimit {
+		switch {
+		case t.kind == "ref":
+			return jnull()
+		case t.kind == "arr" && t.fixed < 0:
+			return jarr()
+		}
+	}
 	switch t.kind {
 	case "uint":
 		return spellInt(r, st, genInt(r, st, false, t.bits))
@@ -841,6 +865,7 @@ type genDoc struct {
 	primary string
 	doc     *jn
 	domain  *sdef // the declared EIP712Domain type; nil when the document declares none
+	cost    int   // estimated Keccak blocks of the message
 }
 
 // domainMode: 0..31 = that subset of the five standard fields; 32 = no domain type; 33 = domain-only
@@ -893,12 +918,15 @@ func buildDocG(r *cv.Rand, st *cv.Stats, g *graph, domainMode int) *genDoc {
 	if domain != nil {
 		doc.set("domain", domain)
 	}
+	docCost := 0
 	if primary != "EIP712Domain" {
 		// keep the hashing work of one document bounded
 		var msg *jn
 		for try, budget := 0, 1+r.Intn(3); ; try++ {
+			nodeCount = 0
 			msg = genStruct(r, st, g, primary, budget)
 			c := g.cost(&mty{kind: "ref", ref: primary}, msg, map[string]int{})
+			docCost = c
 			if c <= maxBlocks || try >= 6 {
 				st.Hit(fmt.Sprintf("cost:blocks<=%d", (c/10+1)*10))
 				break
@@ -917,7 +945,7 @@ func buildDocG(r *cv.Rand, st *cv.Stats, g *graph, domainMode int) *genDoc {
 	} else if r.Bool() {
 		doc.set("message", jobj())
 	}
-	return &genDoc{g: g, primary: primary, doc: doc, domain: domainDef}
+	return &genDoc{g: g, primary: primary, doc: doc, domain: domainDef, cost: docCost}
 }
 
 // add types that nothing reachable refers to
@@ -1433,6 +1461,10 @@ func (c *ctxT) abiCase(paramJSON []byte, g *graph, root string) {
 		}
 		return
 	}
+	// the same component tree converted once more gives the same answer (nothing kept between calls)
+	if p2, ts2, e2 := eip712.ABItoTypedDataV4(context.Background(), tc); e2 != nil || p2 != primary || !reflect.DeepEqual(ts, ts2) {
+		c.fail("ABItoTypedDataV4 gives another answer when called again on the same component tree", map[string]interface{}{"abi": string(paramJSON)})
+	}
 	// the derived type set must hash like the hand-written one (restricted to what root reaches)
 	if primary != root {
 		c.fail("ABItoTypedDataV4 primary type is not the struct name", map[string]interface{}{"abi": string(paramJSON), "primary": primary})
@@ -1440,6 +1472,7 @@ func (c *ctxT) abiCase(paramJSON []byte, g *graph, root string) {
 	var hand eip712.TypeSet
 	json.Unmarshal(g.typesJSON().text(nil), &hand)
 	for i := 0; i < 3; i++ {
+		nodeCount = 0
 		msgText := genStruct(c.r, c.st, g, root, 3).text(nil)
 		var m1, m2 map[string]interface{}
 		d1 := json.NewDecoder(bytes.NewReader(msgText))
@@ -1479,6 +1512,11 @@ func main() {
 	tier := flag.String("tier", "quick", "quick|thorough")
 	replay := flag.String("replay", "", "replay file")
 	flag.Parse()
+	if pf := os.Getenv("C04_PROFILE"); pf != "" {
+		f, _ := os.Create(pf)
+		pprof.StartCPUProfile(f)
+		defer pprof.StopCPUProfile()
+	}
 	if *out == "" {
 		fmt.Fprintln(os.Stderr, "need -out")
 		os.Exit(2)
@@ -1609,7 +1647,8 @@ func main() {
 	}
 	c.round3Sign()
 	c.round3ABI(thorough)
-	nBulk := 1200
+	c.round3Wallet()
+	nBulk := 2000
 	if thorough {
 		nBulk = 20000
 	}
